@@ -20,7 +20,7 @@ EXPLANATION = (
     "the panic path's asm! is nostack+noreturn, its inputs are the thread's recorded stack address/size and MUNMAP, and its template ends in EXIT; every unmap covers exactly the mapping: the length mapped in spawn is the length recorded for the panic handler, the length handed to the trampoline and the length unmapped on spawn's failure path, and the trampoline's address is the mmap result itself. C06.3 also: the thread-local block is freed only after the user's function returned (the panic handler still needs it). C06.5 the closure box is consumed by the start function. "
     "C06.6 a failed spawn releases everything it had acquired (join block, boxed closure, stack mapping, TLS block) on every error return; "
     "C06.1 also: after the hand-over flag was flipped the thread (epilogue and panic handler) runs only release primitives - no user destructor, no formatting - and join may disarm itself with ManuallyDrop only when the free lies on every exit. "
-    "NOT decided: VmSize/heap baselines after many threads (quantitative), kernel timing of the clear-tid write.")
+    "C06.3 also: nothing is read through the thread-local block after it was freed. NOT decided: VmSize/heap baselines after many threads (quantitative), kernel timing of the clear-tid write.")
 ASSUMPTIONS = ["CLONE_CHILD_CLEARTID semantics", "System V x86_64 callee-saved registers r12-r15, rbx, rbp"]
 
 
